@@ -81,4 +81,6 @@ NoKVals == <<>>
 NoOrders == {}
 NoPoints == {}
 NoReK == {}
+TrNames == [s \in Species |-> s]
+TrOv == <<>>
 =============================================================================
